@@ -799,3 +799,108 @@ func coordinateCoverage(fn *ssa.Function) map[int][]string {
 	}
 	return res
 }
+
+// ---------------------------------------------------------------------------------------------
+// L-WIDTH: a product (or sum) computed in a type narrower than int whose operand is a length
+// decoded from input (binary.*.Uint32/Uint16 result, or a uint32 parameter/field) and whose result
+// is used as a slice length / bound / index: for large decoded values the product wraps around and
+// the bound no longer matches the data.
+// ---------------------------------------------------------------------------------------------
+func narrowLengthArithmetic(p *Program, fn *ssa.Function) (int, []Finding) {
+	var hits []Finding
+	n := 0
+	for _, b := range fn.Blocks {
+		for _, in := range b.Instrs {
+			bo, ok := in.(*ssa.BinOp)
+			if !ok || (bo.Op != token.MUL && bo.Op != token.SHL) {
+				continue
+			}
+			bt, ok := bo.Type().Underlying().(*types.Basic)
+			if !ok {
+				continue
+			}
+			narrow := false
+			switch bt.Kind() {
+			case types.Uint32, types.Int32, types.Uint16, types.Int16, types.Uint8, types.Int8:
+				narrow = true
+			}
+			// one operand decoded from input?
+			var decoded func(v ssa.Value) bool
+			decoded = func(v ssa.Value) bool {
+				v = stripConv(v)
+				if ld, ok := v.(*ssa.UnOp); ok && ld.Op == token.MUL {
+					// a local (possibly captured by a closure, hence spilled) holding the decoded value
+					if a, ok := ld.X.(*ssa.Alloc); ok && a.Referrers() != nil {
+						for _, r := range *a.Referrers() {
+							if st, ok := r.(*ssa.Store); ok && st.Addr == ssa.Value(a) && decoded(st.Val) {
+								return true
+							}
+						}
+					}
+					return false
+				}
+				if c, ok := v.(*ssa.Call); ok {
+					cl := calleeOf(&c.Call)
+					if cl.Pkg == "encoding/binary" && (strings.HasPrefix(cl.Name, "Uint") || strings.HasPrefix(cl.Name, "Int")) {
+						return true
+					}
+				}
+				return false
+			}
+			if !decoded(bo.X) && !decoded(bo.Y) {
+				continue
+			}
+			n++ // a product involving a decoded length (whatever its width): instance of the rule
+			if narrow && usedAsBound(bo, 0, map[ssa.Value]bool{}) {
+				hits = append(hits, Finding{fn, bo.Pos(), "decoded-length-arithmetic-in-int", fmt.Sprintf("%s: a length decoded from the input is multiplied in %s and the product is used as a slice length or bound: for large headers the product wraps around (the data window no longer matches the announced length)", funcKey(fn), bt.Name())})
+			}
+		}
+	}
+	return n, hits
+}
+
+func usedAsBound(v ssa.Value, d int, seen map[ssa.Value]bool) bool {
+	if d > 6 || seen[v] || v.Referrers() == nil {
+		return false
+	}
+	seen[v] = true
+	for _, r := range *v.Referrers() {
+		switch x := r.(type) {
+		case *ssa.Convert:
+			if usedAsBound(x, d+1, seen) {
+				return true
+			}
+		case *ssa.ChangeType:
+			if usedAsBound(x, d+1, seen) {
+				return true
+			}
+		case *ssa.MakeSlice:
+			return true
+		case *ssa.Slice:
+			if x.Low == v || x.High == v || x.Max == v {
+				return true
+			}
+		case *ssa.IndexAddr:
+			if x.Index == v {
+				return true
+			}
+		case *ssa.Call:
+			cl := calleeOf(&x.Call)
+			if cl.Pkg == "unsafe" || cl.Name == "Slice" || cl.Name == "SliceData" {
+				return true
+			}
+			if b, ok := x.Call.Value.(*ssa.Builtin); ok && strings.HasPrefix(b.Name(), "Slice") {
+				return true
+			}
+		case *ssa.BinOp:
+			if usedAsBound(x, d+1, seen) {
+				return true
+			}
+		case *ssa.Phi:
+			if usedAsBound(x, d+1, seen) {
+				return true
+			}
+		}
+	}
+	return false
+}
